@@ -913,3 +913,110 @@ MUTANTS += [
         }
 """, "")]),
 ]
+
+REFACTORS += [
+    dict(name='frame_loop_split_at', desc='write_record takes prefix and remainder with one split_at',
+         edits=[(RWR, """            let frame_payload = &payload[..frame_payload_len];
+            payload = &payload[frame_payload_len..];""", """            let (frame_payload, remaining_payload) = payload.split_at(frame_payload_len);
+            payload = remaining_payload;""")]),
+    dict(name='next_block_match_style', desc='next_block: `if success` replaced by match on the bool',
+         edits=[(DIR, """        let success = read_block(&mut self.file, &mut self.block)?;
+        if success {
+            self.block_id += 1;
+            return Ok(true);
+        }
+""", """        match read_block(&mut self.file, &mut self.block)? {
+            true => {
+                self.block_id += 1;
+                return Ok(true);
+            }
+            false => {}
+        }
+""")]),
+    dict(name='write_new_offset_local', desc='RollingWriter::write computes the new offset once',
+         edits=[(DIR, """        if self.offset + buf.len() > FILE_NUM_BYTES {""", """        let end_offset = self.offset + buf.len();
+        if end_offset > FILE_NUM_BYTES {""")]),
+    dict(name='skip_block_positive_form', desc='go_to_next_block_if_necessary: positive-form if around the skip instead of early return',
+         edits=[(FRD, """        if !need_to_skip_block {
+            return Ok(());
+        }
+        if !self.reader.next_block()? {
+            return Err(ReadFrameError::NotAvailable);
+        }
+
+        self.cursor = 0;
+        self.block_corrupted = false;
+        Ok(())""", """        if need_to_skip_block {
+            if !self.reader.next_block()? {
+                return Err(ReadFrameError::NotAvailable);
+            }
+            self.cursor = 0;
+            self.block_corrupted = false;
+        }
+        Ok(())""")]),
+    dict(name='consult_as_match', desc='persist_on_policy: if let -> match',
+         edits=[(MRL, """        if let Some(persist_action) = self.next_persist.should_persist() {
+            self.persist(persist_action)?;
+            self.next_persist.update_persisted();
+        }
+        Ok(())""", """        match self.next_persist.should_persist() {
+            Some(persist_action) => {
+                self.persist(persist_action)?;
+                self.next_persist.update_persisted();
+                Ok(())
+            }
+            None => Ok(()),
+        }""")]),
+    dict(name='truncate_head_start_first', desc='truncate_head: start_position assigned before the removals; shared tail',
+         edits=[(Q, """        if truncate_up_to_pos + 1 >= self.next_position() {
+            self.start_position = truncate_up_to_pos + 1;
+            self.concatenated_records.clear();
+            let record_count = self.record_metas.len();
+            self.record_metas.clear();
+            return record_count;
+        }""", """        if truncate_up_to_pos + 1 >= self.next_position() {
+            let record_count = self.record_metas.len();
+            self.record_metas.clear();
+            self.concatenated_records.clear();
+            self.start_position = truncate_up_to_pos + 1;
+            return record_count;
+        }""")]),
+    dict(name='header_check_inlined_len', desc='read_frame computes end = cursor + len after the header advance and compares end',
+         edits=[(FRD, """        self.cursor += HEADER_LEN;
+        if self.cursor + header.len() > BLOCK_NUM_BYTES {""", """        self.cursor += HEADER_LEN;
+        let frame_end = self.cursor + header.len();
+        if frame_end > BLOCK_NUM_BYTES {""")]),
+    dict(name='deserialize_match_on_len', desc='MultiPlexedRecord::deserialize: length tests as early-return matches on checked split',
+         edits=[(REC, """        if body.len() < queue_len {
+            error!(
+                queue_len = queue_len,
+                body_len = body.len(),
+                "record body too short"
+            );
+            return None;
+        }
+        let (queue_bytes, payload) = body.split_at(queue_len);""", """        if queue_len > body.len() {
+            error!(
+                queue_len = queue_len,
+                body_len = body.len(),
+                "record body too short"
+            );
+            return None;
+        }
+        let (queue_bytes, payload) = body.split_at(queue_len);""")]),
+    dict(name='create_file_seek_rewind', desc='create_file uses rewind() instead of seek(Start(0))',
+         edits=[(DIR, '    file.set_len(FILE_NUM_BYTES as u64)?;\n    file.seek(SeekFrom::Start(0))?;', '    file.set_len(FILE_NUM_BYTES as u64)?;\n    file.rewind()?;')]),
+    dict(name='replay_arms_helper', desc='replay: the AppendRecords arm body moved to a local closure-free helper fn',
+         edits=[(MRL, """                        if !in_mem_queues.contains_queue(queue) {
+                            in_mem_queues.ack_position(queue, position);
+                        }
+                        for record in records {""", """                        ensure_queue(&mut in_mem_queues, queue, position);
+                        for record in records {"""),
+                (MRL, """pub struct MultiRecordLog {""", """fn ensure_queue(in_mem_queues: &mut mem::MemQueues, queue: &str, position: u64) {
+    if !in_mem_queues.contains_queue(queue) {
+        in_mem_queues.ack_position(queue, position);
+    }
+}
+
+pub struct MultiRecordLog {""")]),
+]
